@@ -367,6 +367,10 @@ def run(ctx):
         ctx.rule('R18w', 'a callable separator is called with the whole text of the chars node and the position to search from '
                          '(`sep_chars(chars, pos)`), never with a slice and a rebased position: it may look at what precedes the '
                          'position', 1)
+        ctx.rule('R18y', 'get_next_split: where the separator is a plain string found with `<text>.find(<sep>, pos)`, the reported '
+                         'match is (start, start + len(<sep>)) -- the whole separator is consumed, whatever its length '
+                         '(decided on the returned tuple after substitution of the locals)', 1)
+        n_fd = [0]
         try:
             rcs = symex.return_cases(gns)
         except symex.TooManyPaths:
@@ -386,6 +390,20 @@ def run(ctx):
                        'having been checked: for regular-expression / callable separators max_split is '
                        'ignored (parse_keyval_content with a regex `=` separator splits a value that '
                        'contains `=`)' % short(v, 60), construct=cons)
+            # R18y: a separator found with str.find() ends len(separator) characters after its start
+            if isinstance(v, ast.Tuple) and len(v.elts) == 2 and isinstance(v.elts[0], ast.Call) and \
+                    call_name(v.elts[0]) in ('find', 'index') and v.elts[0].args:
+                n_fd[0] += 1
+                e0_, sp_ = unparse(v.elts[0]), unparse(v.elts[0].args[0])
+                e1_ = unparse(v.elts[1])
+                ok_y = e1_ in ('%s + len(%s)' % (e0_, sp_), 'len(%s) + %s' % (sp_, e0_))
+                ctx.decide('R18y', ok_y, m, cs.node, 'a separator found with %s() ends len(%s) after its start' % (
+                               call_name(v.elts[0]), sp_),
+                           'get_next_split reports the separator found by %s as ending at %s, not at start + len(%s): for a '
+                           'separator of more than one character (`::`, `, `, `:=`) the rest of the separator stays in the '
+                           'next part, the parts no longer reproduce the text between the separators, and '
+                           'parse_keyval_content with such separators returns wrong keys and values'
+                           % (short(v.elts[0], 40), short(v.elts[1], 50), sp_), construct='get_next_split: string separator end')
             srch = [c_ for c_ in ast.walk(v) if isinstance(c_, ast.Call) and call_name(c_) == 'search']
             for c_ in srch:
                 whole = len(c_.args) == 2 and isinstance(c_.args[0], ast.Name)
@@ -407,6 +425,9 @@ def run(ctx):
                            'the list is split where the caller said it must not be' % (short(c_, 50), ', '.join(gp_[:2])),
                            construct='get_next_split: callable separator')
     if gns is not None:
+        if not n_fd[0]:
+            ctx.unknown('R18y', m, gns, 'no return of a str.find() match found in get_next_split',
+                        construct='get_next_split: string separator end')
         if not n_cal[0]:
             ctx.unknown('R18w', m, gns, 'no call of the separator callable found in get_next_split',
                         construct='get_next_split: callable separator')
